@@ -29,12 +29,16 @@ package tor
 //@ func (*Torrent).MetadataComplete
 //@   requires torrent != nil && torrent.Pieces.Length() <= 0
 //@   modifies torrent.inFlight, torrent.PieceHashes, torrent.Name, torrent.Files, torrent.infoComplete, torrent.Pieces
-//@   ensures  [sizes]  $r0 == nil ==> GeomSizes(torrent)
+//@   ensures  [psize]  $r0 == nil ==> torrent.Pieces.PieceSize() >= 16384 && torrent.Pieces.PieceSize()%16384 == 0 && torrent.Pieces.Length() >= 0
+//@   ensures  [npieces] $r0 == nil ==> int64(torrent.Pieces.Num()) == (torrent.Pieces.Length()+int64(torrent.Pieces.PieceSize())-1)/int64(torrent.Pieces.PieceSize())
+//@   ensures  [nhashes] $r0 == nil ==> len(torrent.PieceHashes) == torrent.Pieces.Num()
+//@   ensures  [inflight] $r0 == nil ==> int64(len(torrent.inFlight)) == (torrent.Pieces.Length()+16383)/16384
+//@   ensures  [name]   $r0 == nil ==> torrent.Name != ""
 //@   ensures  [hashes] $r0 == nil ==> GeomHashes(torrent)
 //@   ensures  [files]  $r0 == nil ==> FilesEach(torrent)
 //@   ensures  [chain]  $r0 == nil ==> FilesChain(torrent)
 //@   ensures  [ends]   $r0 == nil ==> FilesEnds(torrent)
-//@   ensures  [latch] $r0 != nil ==> torrent.infoComplete == old(torrent.infoComplete)
+//@   ensures  [latch] $r0 != nil ==> torrent.infoComplete == old(torrent.infoComplete) && torrent.Pieces.Length() == old(torrent.Pieces.Length())
 //@   ensures  [done]  $r0 == nil ==> torrent.infoComplete == 1
 //@   loop 1
 //@     invariant 0 <= i && i <= len(info.Pieces)/20 && len(hashes) == i && cap(hashes) == len(info.Pieces)/20 && len(info.Pieces)%20 == 0 && fresh_(hashes)
@@ -46,3 +50,47 @@ package tor
 //@     invariant [first]  len(files) > 0 ==> files[0].Offset == 0
 //@     invariant length == (len(files) == 0 ? 0 : files[len(files)-1].Offset + files[len(files)-1].Length)
 //@   props    C13 C12
+
+//@ use crypto
+
+// MetaOK: while the metadata is not complete, the request table has one slot
+// per 16 KiB block of the expected metadata, and no piece store exists yet.
+//@ spec MetaOK(t *Torrent) bool
+//@   body t.infoComplete == 0 ==> (len(t.infoRequested) == (len(t.Info)+16383)/16384 && len(t.Info) <= 128*1024*1024 && t.Pieces.Length() <= 0)
+
+// InfoBit: metadata block i has been received.
+//@ spec InfoBit(t *Torrent, i int) bool
+//@   import "github.com/jech/storrent/bitmap"
+//@   body bitmap.Bit(t.infoBitmap, i)
+
+// Authentic: the SHA-1 of the info dictionary is the torrent's info-hash.
+//@ spec Authentic(t *Torrent) bool
+//@   body forall k int :: 0 <= k && k < 20 ==> sha1byte(t.Info, k) == t.Hash[k]
+
+//@ func metadataVote
+//@   requires t != nil
+//@   modifies t.infoSizeVotes, heap:map:map[uint32]int
+//@   ensures  [size] $r0 == nil ==> size >= 1 && size <= 128*1024*1024
+//@   props    C12 C05
+
+//@ func resizeMetadata
+//@   requires t != nil && MetaOK(t)
+//@   modifies t.Info, t.infoBitmap, t.infoRequested
+//@   ensures  [ok]    MetaOK(t)
+//@   ensures  [size]  $r0 == nil ==> len(t.Info) == int(size)
+//@   ensures  [state] t.infoComplete == old(t.infoComplete)
+//@   props    C12 C05
+
+//@ func gotMetadata
+//@   requires t != nil && MetaOK(t) && len(t.Hash) == 20
+//@   modifies t.Info, t.Info[_], t.infoBitmap, t.infoBitmap[__], t.infoRequested, t.infoSizeVotes
+//@   modifies t.inFlight, t.PieceHashes, t.Name, t.Files, t.infoComplete, t.Pieces
+//@   ensures  [ok]    MetaOK(t)
+//@   ensures  [auth]  $r0 ==> Authentic(t) && t.infoComplete == 1 && Geom(t)
+//@   ensures  [only]  t.infoComplete != old(t.infoComplete) ==> $r0
+//@   ensures  [keep]  old(t.infoComplete) == 0 && t.Info != nil && samearr_(t.Info, old(t.Info)) ==> forall x int :: 0 <= x && x < len(t.Info) && (x < int(index)*16384 || x >= int(index)*16384+len(data)) ==> t.Info[x] == old(t.Info[x])
+//@   ensures  [nodup] old(t.infoComplete) == 0 && old(InfoBit(t, int(index))) && t.Info != nil && samearr_(t.Info, old(t.Info)) ==> forall x int :: 0 <= x && x < len(t.Info) ==> t.Info[x] == old(t.Info[x])
+//@   ensures  [reset] $r1 != nil && old(t.infoComplete) == 0 && !samearr_(t.Info, old(t.Info)) ==> t.Info == nil && t.infoBitmap == nil && t.infoRequested == nil && t.infoComplete == 0
+//@   loop 1
+//@     invariant 0 <= i && i <= chunks
+//@   props    C12 C05
